@@ -147,8 +147,16 @@ def render(rnd, rows, env, ams=True, dangling=False):
         emit('\\begin{%s}' % env + ('{2}' if env.startswith('alignat') else '') + rnd.choice(['\n', ' ', '']))
     for ri, row in enumerate(rows):
         if ri:
-            emit(rnd.choice([' \\\\\n', '\\\\ ', ' \\\\[2ex]\n', '\\\\*\n'] if False else
-                            [' \\\\\n', '\\\\ ', ' \\\\[2ex]\n']))
+            sep = rnd.choice([' \\\\\n', '\\\\ ', ' \\\\[2ex]\n', ' \\\\\n', '\\\\ ', ' \\\\[2ex]\n', '\\\\*\n', ' \\\\* '])
+            if '*' in sep:
+                # the starred row separator: the filter reads the star as the first character of the next row (an
+                # element of its first maths part); the row still ends here
+                first = row[0]
+                if first and first[0][0] == 'math':
+                    first[0] = ('math', [('el', '*', 'written-with-the-separator')] + list(first[0][1]))
+                else:
+                    first.insert(0, ('math', [('el', '*', 'written-with-the-separator')]))
+            emit(sep)
         for si, sec in enumerate(row):
             if si:
                 emit(rnd.choice([' & ', '&', ' &']))
@@ -159,6 +167,8 @@ def render(rnd, rows, env, ams=True, dangling=False):
                     # control words need a delimiter before a following letter
                     s = ''
                     for a in it[1]:
+                        if len(a) > 2:
+                            continue
                         if s and a[1][0].isalpha() and re.search(r'\\[a-zA-Z]+$', s):
                             s += ' '
                         elif s and rnd.random() < .3:
